@@ -28,8 +28,8 @@ ASSUMPTIONS = [
     "an entry's size is the sum of the sizes of the files in its directory (what the store reports)",
 ]
 SHARDS = {"quick": 12, "thorough": 14}
-FLOORS = {"quick": {"conclusive": 2000, "stores_with_eviction": 600, "survivor_hits_checked": 2000, "evicted_recomputed_checked": 1500},
-          "thorough": {"conclusive": 30000, "stores_with_eviction": 10000, "survivor_hits_checked": 30000, "evicted_recomputed_checked": 25000}}
+FLOORS = {"quick": {"contract_evaluations_in_repo_tests": 8, "conclusive": 2000, "stores_with_eviction": 600, "survivor_hits_checked": 2000, "evicted_recomputed_checked": 1500},
+          "thorough": {"contract_evaluations_in_repo_tests": 8, "conclusive": 30000, "stores_with_eviction": 10000, "survivor_hits_checked": 30000, "evicted_recomputed_checked": 25000}}
 
 CALLS = []
 
@@ -48,6 +48,7 @@ def cases(tier, seed):
     n = 2400 if tier == "quick" else 40000
     for i in range(n):
         yield dict(i=i)
+    yield dict(i=-1, contract=True)
 
 
 HEX = re.compile("[a-f0-9]{32}$")
@@ -74,6 +75,16 @@ def breaks(S, inv, bl, il, dl):
 
 
 def run_case(case, ctx):
+    if case.get("contract"):
+        # the repository's own Memory tests with conditions (1)-(3) installed as an icontract postcondition on _get_items_to_delete
+        state, r = harness.run_repo_tests_with_contracts(["joblib/test/test_memory.py"])
+        if state is None:
+            ctx.inconclusive("contract-run-failed", r["err"][-500:] + r["out"][-500:])
+            return
+        ctx.count("contract_evaluations_in_repo_tests", state["items_to_delete_evals"])
+        for v in state["items_to_delete_violations"][:3]:
+            ctx.violation("contract:" + v["why"].replace(" ", "-"), f"while the repository's tests ran: _get_items_to_delete limits {v['limits']} over {v['items']}: {v['why']}", v)
+        return
     from joblib import Memory
 
     rng = harness.rng_for(ctx.seed, ID, case["i"])
